@@ -34,6 +34,9 @@ void __asan_on_error(void) {
   char b[220]; int n = snprintf(b, sizeof b, "    #0 0x0 in %s /src/(input-class-tag-written-by-h_C12)\n", CRASHCLS);
   if (n > 0) { ssize_t w = write(2, b, (size_t)n); (void)w; }
 }
+/* allocation stacks are not needed to attribute a report (the error stack is kept) and cost an unwind per malloc plus
+ * a second symbolisation per report; a replay can turn them back on with ASAN_OPTIONS=malloc_context_size=30 */
+const char *__asan_default_options(void) { return "malloc_context_size=0"; }
 static void arm(const char *fn, const char *cls) { snprintf(CRASHCLS, sizeof CRASHCLS, "%s|%s", fn, cls); }
 static void disarm(void) { CRASHCLS[0] = 0; }
 
@@ -130,10 +133,20 @@ static void gen_square(sqm *q, int maxn, int with_scale) {
     build_indexed(q->n, q->kind, fam, q->a); snprintf(q->tag, sizeof q->tag, "idx(n=%d,kind=%d,fam=%d)", q->n, q->kind, fam);
   }
   q->sc = 1;
-  if (with_scale && (src != 1 || vx_thorough())) { if (vx_choose("scale", 2)) q->sc = ldexp(1.0, -17); }   /* exact power of two: 7.6e-6 */
+  if (with_scale && (src != 1 || vx_thorough()) && !(with_scale == 2 && q->n > 6)) { if (vx_choose("scale", 2)) q->sc = ldexp(1.0, -17); }   /* exact power of two: 7.6e-6 */
   for (int i = 0; i < q->n * q->n; i++) q->a[i] *= q->sc;
 }
 static rmat *rm_of(const double *a, int r, int c) { rmat *m = rm_new(r, c); for (int i = 0; i < r * c; i++) m->a[i] = a[i]; return m; }
+/* replay mode only: print operands and results */
+static void log_arr(const char *name, const double *a, int r, int c) {
+  if (!vx_replaying()) return;
+  vx_log("%s (%dx%d):\n", name, r, c); for (int i = 0; i < r; i++) { for (int j = 0; j < c; j++) vx_log(" % .10g", a[i * c + j]); vx_log("\n"); }
+}
+static void log_mat(const char *name, const matrix *m) {
+  if (!vx_replaying()) return;
+  vx_log("%s (%zux%zu):\n", name, m->row, m->col); for (size_t i = 0; i < m->row; i++) { for (size_t j = 0; j < m->col; j++) vx_log(" % .10g", m->data[i][j]); vx_log("\n"); }
+}
+static void log_vec(const char *name, const dvector *v) { if (!vx_replaying()) return; vx_log("%s (%zu):", name, v->size); for (size_t i = 0; i < v->size; i++) vx_log(" % .10g", v->data[i]); vx_log("\n"); }
 /* precondition of the statement: non-singular, kappa <= 1e6 (kappa measured by the long-double reference SVD) */
 static ld require_regular(const rmat *R) {
   rmat *lu = rm_copy(R); int piv[NMAX + 1]; ld det; int ok = rm_lu(lu, piv, &det); rm_free(lu);
@@ -148,7 +161,9 @@ static void op_inv(int lu) {
   rmat *R = rm_of(q.a, n, n); ld kap = require_regular(R); ld gam; int np = needs_pivot(R, &gam);
   const char *fn = lu ? "MatrixLUInversion" : "MatrixInversion", *cls = np ? "needs-pivot" : "no-pivot-needed";
   matrix *m = hm_new(n, n, q.a), *inv; initMatrix(&inv);
+  log_mat("M", m);
   arm(fn, cls); if (lu) MatrixLUInversion(m, inv); else MatrixInversion(m, inv); disarm(); vx_transition(1);
+  log_mat(fn, inv);
   char key[160]; snprintf(key, sizeof key, "shape|%s|%s", fn, cls);
   int shp = (int)inv->row == n && (int)inv->col == n; vx_check(shp, key, "%s: result is %zux%zu for order %d", q.tag, inv->row, inv->col, n);
   if (shp) {
@@ -175,19 +190,21 @@ static void fixedB(int k, int n, double *b) {
   }
 }
 static void op_det(void) {
-  sqm q; gen_square(&q, 8, 1); int n = q.n;          /* the library's Laplace expansion costs n!: order <= 8 as in the statement */
+  sqm q; gen_square(&q, 8, 2); int n = q.n;          /* the library's Laplace expansion costs n! (0.1 s at order 8 under ASan): order <= 8 as in the statement; orders 7, 8: one scale, 2 of the 8 B */
   rmat *R = rm_of(q.a, n, n); ld kap = require_regular(R);
   rmat *lu = rm_copy(R); int piv[NMAX + 1]; ld detlu; rm_lu(lu, piv, &detlu); rm_free(lu);      /* product of pivots of an independent LU */
   ld detcof = rm_det_cofactor(R), pA = permabs(R);
   matrix *m = hm_new(n, n, q.a);
+  log_mat("M", m);
   arm("MatrixDeterminant", "nonsingular"); double d = MatrixDeterminant(m); disarm(); vx_transition(1);
+  vx_log("MatrixDeterminant = %.17g, reference LU %.17Lg, cofactor %.17Lg, perm|A| %.6Lg\n", d, detlu, detcof, pA);
   double tolA = 64 * DEPS * (n + 1) * (double)pA;   /* each of the n! terms carries <= 2n roundings: forward bound ~ 2n*eps*perm|A| */
   judge(fabs(d - (double)detlu), tolA, "value|MatrixDeterminant", "%s scale %g kappa %.3Lg: library %.17g, product of LU pivots %.17Lg, cofactor %.17Lg", q.tag, q.sc, kap, d, detlu, detcof);
   if (q.src < 3) vx_check((ld)d == detcof, "exact|MatrixDeterminant|small-integers", "%s scale %g: library %.17g, exact %.17Lg", q.tag, q.sc, d, detcof);
   /* multiplicative: det(AB) = det(A) det(B) for 8 fixed B, all three determinants taken from the library */
   double worst = 0, B[NMAX * NMAX];
-  for (int k = 0; k < 8; k++) {
-    fixedB(k, n, B); rmat *RB = rm_of(B, n, n), *AB = rm_mul(R, RB);
+  for (int k = 0; k < (n > 6 ? 2 : 8); k++) {
+    fixedB(n > 6 ? 4 * k + 2 : k, n, B); rmat *RB = rm_of(B, n, n), *AB = rm_mul(R, RB);
     matrix *mb = hm_new(n, n, B), *mab = hm_from_rm(AB);
     rmat *absA = rm_copy(R), *absB = rm_copy(RB); for (int i = 0; i < n * n; i++) { absA->a[i] = fabsl(absA->a[i]); absB->a[i] = fabsl(absB->a[i]); }
     rmat *absAB = rm_mul(absA, absB); ld pB = permabs(RB), pAB = permabs(absAB);
@@ -201,6 +218,22 @@ static void op_det(void) {
   rm_free(R); DelMatrix(&m);
 }
 
+/* Local replacement for engine/vnum.c rm_solve (see notes): rm_lu exchanges whole rows, multipliers included, but rm_solve
+ * interleaves the exchanges with the forward substitution, which is only right when at most one exchange moves a row that
+ * already holds multipliers; its result is wrong e.g. for the 4x4 natural-spline system with spacings 5.39, 4.08, 3.75.
+ * Plain Gaussian elimination with partial pivoting on the augmented matrix, long double. Returns 0 if singular. */
+static int ld_solve(const rmat *A, const rmat *B, rmat *X) {
+  int n = A->r, nb = B->c, w = n + nb; rmat *W = rm_new(n, w);
+  for (int i = 0; i < n; i++) { for (int j = 0; j < n; j++) RM(W, i, j) = RM(A, i, j); for (int j = 0; j < nb; j++) RM(W, i, n + j) = RM(B, i, j); }
+  for (int k = 0; k < n; k++) {
+    int p = k; for (int i = k + 1; i < n; i++) if (fabsl(RM(W, i, k)) > fabsl(RM(W, p, k))) p = i;
+    if (RM(W, p, k) == 0) { rm_free(W); return 0; }
+    if (p != k) for (int j = 0; j < w; j++) { ld t = RM(W, k, j); RM(W, k, j) = RM(W, p, j); RM(W, p, j) = t; }
+    for (int i = k + 1; i < n; i++) { ld f = RM(W, i, k) / RM(W, k, k); if (f == 0) continue; for (int j = k; j < w; j++) RM(W, i, j) -= f * RM(W, k, j); }
+  }
+  for (int c = 0; c < nb; c++) for (int i = n - 1; i >= 0; i--) { ld s = RM(W, i, n + c); for (int j = i + 1; j < n; j++) s -= RM(W, i, j) * RM(X, j, c); RM(X, i, c) = s / RM(W, i, i); }
+  rm_free(W); return 1;
+}
 /* ---- op: SolveLSE ------------------------------------------------------------------------------------
  * classes (first that applies):
  *   abs<1e-4          the system contains, or plain elimination produces, a non-zero quantity of magnitude below
@@ -232,10 +265,12 @@ static void op_lse(void) {
     if (bk == 0) { for (int i = 0; i < n; i++) { ld s = 0; for (int j = 0; j < n; j++) s += RM(R, i, j) * (ld)((j % 2 ? -1 : 1) * (j + 1)); RM(b, i, 0) = (double)s; } }   /* x = (1,-2,3,...) */
     else if (bk == 1) { for (int i = 0; i < n; i++) RM(b, i, 0) = q.sc; }
     else { for (int i = 0; i < n; i++) RM(b, i, 0) = vg_val(950, i, 0) * q.sc; }
-    rm_solve(R, b, xr);
+    ld_solve(R, b, xr);
     matrix *eq = hm_new(n, n + 1, NULL); for (int i = 0; i < n; i++) { for (int j = 0; j < n; j++) eq->data[i][j] = q.a[i * n + j]; eq->data[i][n] = (double)RM(b, i, 0); }
     dvector *x; initDVector(&x);                                  /* calling convention of tests/testalgebra.c */
+    log_mat("[M|b]", eq);
     arm("SolveLSE", cls); SolveLSE(eq, x); disarm(); vx_transition(1);
+    log_vec("SolveLSE", x); if (vx_replaying()) { vx_log("reference solution:"); for (int i = 0; i < n; i++) vx_log(" % .10Lg", RM(xr, i, 0)); vx_log("\n"); }
     char key[160]; snprintf(key, sizeof key, "shape|SolveLSE|%s", cls);
     int shp = (int)x->size == n; vx_check(shp, key, "%s: solution has %zu entries for %d unknowns", q.tag, x->size, n);
     if (shp) {
@@ -265,7 +300,9 @@ static void op_ols(void) {
   else for (int i = 0; i < m; i++) y[i] = vg_val(fam + 400, i, 1) * s1;                                                                  /* general response */
   matrix *x = hm_new(m, n, X); dvector *yv = hv_new(m, y), *b; initDVector(&b);
   char cls[40]; snprintf(cls, sizeof cls, "kappa=%g", kap);
+  log_mat("X", x); log_vec("y", yv);
   arm("OrdinaryLeastSquares", cls); OrdinaryLeastSquares(x, yv, b); disarm(); vx_transition(1);
+  log_vec("OrdinaryLeastSquares", b);
   char key[160]; snprintf(key, sizeof key, "shape|OrdinaryLeastSquares|%s", cls);
   int shp = (int)b->size == n; vx_check(shp, key, "(%dx%d): %zu coefficients", m, n, b->size);
   if (shp) {
@@ -285,6 +322,9 @@ static void op_ols(void) {
  * classes: smin^4<1e-6  the smallest singular value s of the input satisfies s^4 < 1e-6 (the routine inverts A'A
  *                       through an eigen-decomposition of (A'A)^2 and flushes eigenvalues below the ABSOLUTE
  *                       threshold 1e-6 to zero before dividing by them)
+ *          equal-singular-values  otherwise, kappa = 1 with more than one column: A'A is a multiple of the identity up to
+ *                       rounding (the routine takes eigenvectors from the NON-symmetric solver dgeev and uses them as if
+ *                       they were orthonormal, which a multiple eigenvalue does not guarantee)
  *          kappa=<k>    otherwise, the condition number fixed by construction */
 static void op_pinv(void) {
   int n = 1 + vx_choose("n-1", NMAX), m = n + vx_choose("m-n", NMAX - n + 1), ki = vx_choose("kappa", 4), si = vx_choose("s1", 3), fam = vx_choose("fam", vx_thorough() ? 3 : 1);
@@ -292,9 +332,11 @@ static void op_pinv(void) {
   double kap = KAP_LS[ki], s1 = S1S[si], A[NMAX * NMAX];
   vg_spectral(fam * 8 + ki + 500, m, n, s1, n > 1 ? pow(kap, -1.0 / (n - 1)) : 1.0, A);
   double smin = s1 / kap; char cls[40];
-  if (smin * smin * smin * smin < 2e-6) snprintf(cls, sizeof cls, "smin^4<1e-6"); else snprintf(cls, sizeof cls, "kappa=%g", kap);
+  if (smin * smin * smin * smin < 2e-6) snprintf(cls, sizeof cls, "smin^4<1e-6"); else if (n > 1 && ki == 0) snprintf(cls, sizeof cls, "equal-singular-values"); else snprintf(cls, sizeof cls, "kappa=%g", kap);
   matrix *a = hm_new(m, n, A), *inv; initMatrix(&inv);
+  log_mat("A", a);
   arm("MatrixMoorePenrosePseudoinverse", cls); MatrixMoorePenrosePseudoinverse(a, inv); disarm(); vx_transition(1);
+  log_mat("MatrixMoorePenrosePseudoinverse", inv);
   char key[160]; snprintf(key, sizeof key, "shape|MatrixMoorePenrosePseudoinverse|%s", cls);
   int shp = (int)inv->row == n && (int)inv->col == m; vx_check(shp, key, "(%dx%d): result %zux%zu", m, n, inv->row, inv->col);
   if (shp) {
@@ -346,7 +388,9 @@ static void op_eig(void) {
   int rep = 0; for (int i = 0; i + 1 < n; i++) if (ref[i] - ref[i + 1] <= 1e-8L * fro) rep = 1;
   const char *cls = rep ? "repeated" : "distinct";
   matrix *m = hm_new(n, n, a), *ev; dvector *el; initDVector(&el); initMatrix(&ev);   /* convention of tests/testmatrix.c Test24 */
+  log_mat("A", m);
   arm("EVectEval", cls); EVectEval(m, el, ev); disarm(); vx_transition(1);
+  log_vec("eval", el); log_mat("evect", ev); if (vx_replaying()) { vx_log("reference spectrum:"); for (int i = 0; i < n; i++) vx_log(" % .10Lg", ref[i]); vx_log("\n"); }
   char key[160]; snprintf(key, sizeof key, "shape|EVectEval|%s", cls);
   int shp = (int)el->size == n && (int)ev->row == n && (int)ev->col == n; vx_check(shp, key, "%s: %zu values, vectors %zux%zu", tag, el->size, ev->row, ev->col);
   if (shp) {
@@ -357,7 +401,7 @@ static void op_eig(void) {
       for (int i = 0; i < n; i++) { ld r = -(ld)el->data[j] * ev->data[i][j]; for (int k = 0; k < n; k++) r += RM(R, i, k) * ev->data[k][j]; double e = (double)(fabsl(r) / (vn > 0 ? vn : 1)); if (!(e <= worst)) worst = e; }
     }
     snprintf(key, sizeof key, "pair|EVectEval|%s", cls); judge(worst, tol, key, "%s: max|A v - lambda v|/|v|", tag);
-    snprintf(key, sizeof key, "nonzero-vector|EVectEval|%s", cls); vx_check(vmin > 0.5 && vmin < 2 && vmin == vmin, key, "%s: smallest eigenvector norm %g (dgeev normalises to 1)", tag, vmin);
+    snprintf(key, sizeof key, "nonzero-vector|EVectEval|%s", cls); vx_check(vmin > 0 && vmin < INFINITY, key, "%s: smallest eigenvector norm %g: a zero or non-finite vector is not an eigenvector", tag, vmin);
     double s[NMAX]; for (int i = 0; i < n; i++) s[i] = el->data[i];
     for (int i = 0; i < n; i++) for (int j = i + 1; j < n; j++) if (s[j] > s[i]) { double t = s[i]; s[i] = s[j]; s[j] = t; }
     double se = 0; for (int i = 0; i < n; i++) { double e = fabs(s[i] - (double)ref[i]); if (!(e <= se)) se = e; }
@@ -373,10 +417,12 @@ static void gen_any(double *a, int *mp, int *np, char *tag, size_t tl) {
   int src = vx_choose("src", 4), m, n;
   if (src == 0) { m = n = 2; int e = vx_choose("cells", 81); for (int i = 0; i < 4; i++) { a[i] = e % 3 - 1; e /= 3; } snprintf(tag, tl, "tern2"); }
   else if (src == 1) { m = n = 3; static const char *lab[3] = {"row0", "row1", "row2"}; for (int r = 0; r < 3; r++) { int e = vx_choose(lab[r], 27); for (int c = 0; c < 3; c++) { a[r * 3 + c] = e % 3 - 1; e /= 3; } } snprintf(tag, tl, "tern3"); }
-  else if (src == 2) { int sh = vx_choose("shape", vx_thorough() ? 6 : 4); m = RSH[sh][0]; n = RSH[sh][1]; int cells = m * n, tot = 1; for (int i = 0; i < cells; i++) tot *= 3; int e = vx_choose("cells", tot); for (int i = 0; i < cells; i++) { a[i] = e % 3 - 1; e /= 3; } snprintf(tag, tl, "tern%dx%d", m, n); }
+  else if (src == 2) { int sh = vx_choose("shape", vx_thorough() ? 6 : 2); m = RSH[sh][0]; n = RSH[sh][1]; int cells = m * n, tot = 1; for (int i = 0; i < cells; i++) tot *= 3; int e = vx_choose("cells", tot); for (int i = 0; i < cells; i++) { a[i] = e % 3 - 1; e /= 3; } snprintf(tag, tl, "tern%dx%d", m, n); }
   else {
-    m = 1 + vx_choose("m-1", NMAX); n = 1 + vx_choose("n-1", NMAX); int kind = vx_choose("kind", vx_thorough() ? 5 : 3), fam = vx_choose("fam", vx_thorough() ? 3 : 1);
-    static const double kq[3] = {1, 1e4, 0}, kt[5] = {1, 1e2, 1e4, 1e6, 0}; double kap = vx_thorough() ? kt[kind] : kq[kind]; int r = m < n ? m : n; double s[NMAX];
+    /* every shape in both tiers; the quick tier gives non-square shapes one spectrum only (each of them currently ends in
+     * a sanitizer report, which costs ~0.7 s of symbolisation) */
+    m = 1 + vx_choose("m-1", NMAX); n = 1 + vx_choose("n-1", NMAX); int kind = vx_choose("kind", vx_thorough() ? 5 : (m == n ? 3 : 1)), fam = vx_choose("fam", vx_thorough() ? 2 : 1);
+    static const double kq[3] = {1e4, 1, 0}, kt[5] = {1, 1e2, 1e4, 1e6, 0}; double kap = vx_thorough() ? kt[kind] : kq[kind]; int r = m < n ? m : n; double s[NMAX];
     for (int i = 0; i < r; i++) s[i] = kap > 0 ? (r > 1 ? pow(kap, -(double)i / (r - 1)) : 1.0) : (i < (r + 1) / 2 ? 1.0 / (i + 1) : 0.0);   /* kap == 0: rank deficient */
     vg_spectral_s(fam * 8 + kind + 700, m, n, s, a); snprintf(tag, tl, "idx(%dx%d,kappa=%g,fam=%d)", m, n, kap, fam);
   }
@@ -387,7 +433,9 @@ static void op_svdlapack(void) {
   const char *cls = m < n ? "m<n" : m > n ? "m>n" : "m=n"; int r = m < n ? m : n;
   rmat *R = rm_of(a, m, n); ld sref[NMAX]; rm_singular_values(R, sref); double scale = (double)rm_fro(R);
   matrix *A = hm_new(m, n, a), *u, *s, *vt; initMatrix(&u); initMatrix(&s); initMatrix(&vt);     /* convention of tests/testmatrix.c Test26 */
+  log_mat("A", A);
   arm("SVDlapack", cls); SVDlapack(A, u, s, vt); disarm(); vx_transition(1);
+  log_mat("u", u); log_mat("s", s); log_mat("vt", vt);
   char key[160]; snprintf(key, sizeof key, "shape|SVDlapack|%s", cls);
   int shp = (int)u->row == m && u->col == s->row && s->col == vt->row && (int)vt->col == n && (int)s->row >= r && (int)s->col >= r;
   vx_check(shp, key, "%s: factors %zux%zu, %zux%zu, %zux%zu do not chain to %dx%d", tag, u->row, u->col, s->row, s->col, vt->row, vt->col, m, n);
@@ -422,7 +470,9 @@ static void op_svd_eig(void) {
   const char *cls;
   if (flush) cls = "0<smin^2<1e-6"; else if (m != n) cls = "rectangular"; else if (sym) { ld ev[NMAX]; rm_jacobi_eig(R, ev, NULL); cls = ev[n - 1] >= -1e-12L * scale ? "sym-psd" : "sym-indefinite"; } else cls = "nonsymmetric";
   matrix *A = hm_new(m, n, a), *U, *S, *VT; initMatrix(&U); initMatrix(&S); initMatrix(&VT);   /* convention of MatrixPseudoinversion */
+  log_mat("A", A);
   arm("SVD", cls); SVD(A, U, S, VT); disarm(); vx_transition(1);
+  log_mat("U", U); log_mat("S", S); log_mat("VT", VT);
   char key[160]; double tol = CSAFE * DEPS * (m > n ? m : n) * scale * 1e2;   /* eigenvalues of A A' : sigma^2 is formed, allow kappa <= 1e2 of this family once more */
   rmat *rU = rm_from(U), *rS = rm_from(S), *rV = rm_from(VT); double best = INFINITY;
   /* the routine's documentation does not say which factor is which; both dimensionally consistent readings are accepted */
@@ -435,6 +485,7 @@ static void op_svd_eig(void) {
   if (m == n && sref[n - 1] > 1e-9L * scale && (double)(sref[0] / sref[n - 1]) <= 1e6) {   /* non-singular square: pseudo-inverse = inverse */
     matrix *pi; initMatrix(&pi);
     arm("MatrixPseudoinversion", cls); MatrixPseudoinversion(A, pi); disarm(); vx_transition(1);
+    log_mat("MatrixPseudoinversion", pi);
     if ((int)pi->row == n && (int)pi->col == n) {
       rmat *I = rm_from(pi), *P = rm_mul(R, I); for (int i = 0; i < n; i++) RM(P, i, i) -= 1;
       ld kap = sref[0] / sref[n - 1];
@@ -448,7 +499,10 @@ static void op_svd_eig(void) {
 }
 
 static void body(void) {
-  switch (vx_choose("op", 9)) {
+  int op = vx_choose("op", 9);
+  static int only = -2; if (only == -2) only = getenv("C12_ONLY_OP") ? atoi(getenv("C12_ONLY_OP")) : -1;   /* debugging knob: restrict a manual run to one op */
+  if (only >= 0) vx_require(op == only);
+  switch (op) {
     case 0: op_inv(0); break;
     case 1: op_inv(1); break;
     case 2: op_det(); break;
@@ -466,7 +520,7 @@ int main(int argc, char **argv) {
   vx_describe("alphabet", "square: EVERY {-1,0,1} matrix of order 2 (81) and 3 (19683) with det != 0, EVERY permutation matrix of order <= 6 (thorough: 7), indexed order 1..12 x {upper/lower triangular, SPD, diagonal, cyclic shift + 1e-9 perturbation, anti-diagonal dominant, U diag(s) V' with kappa 1,1e2,1e4,1e6}, each at scale 1 and 2^-17; "
               "rectangular: all (m,n) in 1..12^2 (m>=n, kappa 1..1e4, s1 in {1,1e2,1e-2} for least squares and pseudo-inverse; every shape, kappa 1..1e6 and rank-deficient for SVD; every {-1,0,1} matrix 2x2, 3x3, 1x2..3x2); symmetric: every {-1,0,1} symmetric matrix of order 2,3 and 8 spectrum kinds of order 1..12");
   vx_describe("oracle", "M*Minv=I (tol 1e3 eps n kappa); det = product of pivots of the reference LU (tol 64 eps (n+1) perm|A|), exact on integer scopes, det(AB)=det(A)det(B) for 8 fixed B; |Mx-b| <= 1e3 eps n (|M||x|+|b|); X'(y-Xb)=0 and the four Penrose conditions (tol ~ kappa^2); A v = lambda v with |v|=1 and the full spectrum (Jacobi); SVDlapack: factors chain, U S VT = A, S diagonal >= 0 equal to the reference singular values");
-  vx_set_shard_depth(3);
+  vx_set_shard_depth(4);
   vx_expect_outcomes(20000);
   return vx_main(argc, argv, "C12", body);
 }
